@@ -544,7 +544,9 @@ class RaiseNearMisses(Contract):
                     out.append(dict(label=f"{head};{c1};{c2}", head=head,
                                     c1=c1, c2=c2))
         for k in ("lower-nonzero", "upper-partial", "both-off", "normal",
-                  "transposed-out", "inner-not-subscript"):
+                  "transposed-out", "inner-not-subscript",
+                  "permuted-out-square", "permuted-out-square-concrete",
+                  "normal-rank3"):
             out.append(dict(label=f"Reduce;{k}", head="Reduce", c1=k, c2=None))
         return out
 
@@ -579,6 +581,10 @@ class RaiseNearMisses(Contract):
         raise_and_check(h, f"raising.near-misses[{inst['label']}]", il, arrays)
 
     def reduce(self, h, kind, arrays):
+        il = reduce_lambda(h, kind)
+        raise_and_check(h, f"raising.near-misses[Reduce;{kind}]", il, arrays)
+
+    def _unused(self, h, kind, arrays):
         from constantdict import constantdict
 
         from pytato.array import ReductionDescriptor
@@ -610,6 +616,45 @@ class RaiseNearMisses(Contract):
 
     def replay(self, inst, clause, model, info):
         return NEAR_REPLAY.format(inst=inst)
+
+
+def reduce_lambda(h, kind):
+    """Hand-built reduction lambdas around pytato's normal form (also used
+    as programs of the NumPy target, C14)."""
+    from constantdict import constantdict
+
+    from pytato.array import ReductionDescriptor
+    from pytato.reductions import SumReductionOperation
+    from pytato.scalar_expr import Reduce
+    # concrete reduced axis (the matcher insists on int bounds)
+    n0 = h.nonneg("n0")
+    v0, v1, r0 = p.Variable("_0"), p.Variable("_1"), p.Variable("_r0")
+    bounds = {"lower-nonzero": (2, 6), "upper-partial": (0, 4),
+              "both-off": (1, 5)}.get(kind, (0, 6))
+    a = mk_placeholder(h, "x", shape=[n0, 6])
+    inner = p.Subscript(p.Variable("x"), (v0, r0))
+    shape = (n0,)
+    if kind == "transposed-out":
+        a = mk_placeholder(h, "x", shape=[6, n0])
+        inner = p.Subscript(p.Variable("x"), (r0, v0))
+    if kind == "inner-not-subscript":
+        inner = inner * 2
+    if kind in ("permuted-out-square", "permuted-out-square-concrete",
+                "normal-rank3"):
+        # two result axes of *equal* extent: out[_0,_1] = sum_r x[_1,_0,r]
+        # is the transpose of NumPy's sum over the last axis
+        m = 3 if kind.endswith("concrete") else n0
+        a = mk_placeholder(h, "x", shape=[m, m, 6])
+        inner = p.Subscript(p.Variable("x"), (v0, v1, r0)
+                            if kind == "normal-rank3" else (v1, v0, r0))
+        shape = (m, m)
+    expr = Reduce(inner, SumReductionOperation(),
+                  constantdict({"_r0": bounds}))
+    return IndexLambda(expr=expr, shape=shape, dtype=np.dtype(np.float64),
+                       bindings=constantdict({"x": a}),
+                       axes=_get_default_axes(len(shape)), tags=frozenset(),
+                       var_to_reduction_descr=constantdict(
+                           {"_r0": ReductionDescriptor(frozenset())}))
 
 
 NEAR_REPLAY = '''
